@@ -12,7 +12,7 @@ RULE = ("all 8192 13-bit codes through common.altitude (exhaustive), each code e
         "with random contexts; oracle: Q=1 -> 25N-1000, Q=0 -> inverse of a Gillham *encoder* over -1200..126700 ft (1280 codes) else None, "
         "M=1 -> |alt - 3.28084 N| < 1, zero -> None, GNSS height -> 3.28084 N; results must not depend on the context. "
         "non-trivial = Q=0 or M=1 codes and illegal Gillham patterns (distinct by code and carrier)"
-        ' Also: the common helpers called on the same string before the judged decoder and every call made twice (call history), one constant context per carrier so that consecutive frames differ in the field only, 937 real airborne-position frames (leg corpus), more than 2^20 distinct frames in a row in one process (leg volume), the first altitude decodes of a freshly imported package made by four threads at once (leg first_use).')
+        ' Also: the common helpers called on the same string before the judged decoder and every call made twice (call history), one constant context per carrier so that consecutive frames differ in the field only, 937 real airborne-position frames (leg corpus), more than 2^20 distinct frames in a row in one process (leg volume), the first altitude decodes of a freshly imported package made by four threads at once (leg first_use), frames whose AP digits repeat digits of the data part, the decoder first handed damaged forms of the frame, boundary addresses.')
 ASSUMPTIONS = ["Gillham table produced by ref/gillham.py's encoder (Annex 10 reflected-binary 500 ft + 100 ft sub-code)",
                "metric altitudes are judged to < 1 ft because the decoder truncates the converted value"]
 
